@@ -506,5 +506,73 @@ pub async fn run(ctx: &Ctx, rep: &mut Report) {
             rep.count(&format!("family.{}", family));
         }
     }
+    // ---- C. a longer side chain whose block at position `bad` is invalid (header field off,
+    // re-signed; the blocks above it re-pointed and re-signed): the node attempts the
+    // reorganisation when the chain gets longer, fails, and must be back on its own tip - the
+    // tip height never decreases and the tip only moves to a valid, strictly longer chain
+    {
+        use crate::props::c04::{corrupt_with, repoint, Kind};
+        use saito_core::core::consensus::block::Block;
+        let mut cell = 0u64;
+        for loaded in [true, false] {
+            for (trunk, main, side) in [(2usize, 2usize, 3usize), (1, 3, 4), (2, 1, 2), (3, 2, 4)] {
+                for bad in [1usize, 2] {
+                    for kind in [Kind::Difficulty, Kind::Treasury, Kind::BurnFee] {
+                        cell += 1;
+                        if !ctx.mine(cell) || bad > side {
+                            continue;
+                        }
+                        let mut params = Params::with_gp(20);
+                        params.loading_completed = loaded;
+                        let mut b = Builder::new(&params, n_actors, &default_issuance(n_actors)).await;
+                        let creator = b.actors[0].clone();
+                        let genesis = b.genesis;
+                        let fork = b.grow(&mut rng, &genesis, trunk, 1, 10).await;
+                        let main_tip = b.grow(&mut rng, &fork, main, 1, 12).await;
+                        let side_tip = b.grow(&mut rng, &fork, side, 2, 14).await;
+                        let side_hashes: Vec<Hash> = b.store.ancestors(&side_tip).into_iter().filter(|h| b.store.get(h).id > b.store.get(&fork).id).collect();
+                        let mut side_blocks: Vec<Block> = side_hashes.iter().map(|h| b.store.get(h).block.clone()).collect();
+                        if !corrupt_with(&mut side_blocks[bad - 1], kind, &creator, &mut rng, None) {
+                            continue;
+                        }
+                        for i in bad..side_blocks.len() {
+                            let parent_hash = side_blocks[i - 1].hash;
+                            repoint(&mut side_blocks[i], parent_hash, &creator);
+                        }
+                        let mut node = LNode::new(&b.actors[1], &params);
+                        for h in b.store.ancestors(&main_tip) {
+                            let bytes = b.store.get(&h).bytes.clone();
+                            node.add_bytes(&bytes).await;
+                        }
+                        let own = node.tip().await;
+                        if own.1 != main_tip {
+                            continue;
+                        }
+                        rep.eval();
+                        rep.count("family.longer-with-invalid-block");
+                        rep.nontrivial(&format!("C|{}|{}|{}|{}|{}|{:?}", loaded, trunk, main, side, bad, kind));
+                        let mut lowest = own.0;
+                        for (i, blk) in side_blocks.iter().enumerate() {
+                            let r = crate::panics::catch_async(node.add_bytes(&block_bytes(blk))).await;
+                            if let Err(p) = r {
+                                rep.violation(&format!("C05|clause=panic|family=longer-with-invalid-block|{}", p.signature()), &format!("side block {} of {}: {}", i + 1, side, p.message), json!({"kind":"invalid-side-chain","trunk":trunk,"main":main,"side":side,"bad":bad}));
+                                break;
+                            }
+                            let (tid, _) = node.tip().await;
+                            lowest = lowest.min(tid);
+                        }
+                        let (tid, th) = node.tip().await;
+                        if lowest < own.0 || th != main_tip {
+                            rep.violation(
+                                &format!("C05|clause=tip-left-the-valid-chain-for-an-invalid-one|bad-position={}", if bad == 1 { "first" } else { "later" }),
+                                &format!("[loaded={} fault={:?}] node on a valid chain of height {} received a side chain of {} blocks off height {} whose block {} is invalid: lowest tip height seen {}, final tip {} ({})", loaded, kind, own.0, side, b.store.get(&fork).id, bad, lowest, tid, short(&th)),
+                                json!({"kind":"invalid-side-chain","trunk":trunk,"main":main,"side":side,"bad":bad,"loaded":loaded}),
+                            );
+                        }
+                    }
+                }
+            }
+        }
+    }
     rep.sample(json!({"family":"density-middle-window","meaning":"after a common trunk the main branch alternates golden tickets; the side branch (one block longer) has tickets only at its start and end so that a six-block window in its middle has fewer than two; delivered branch after branch, parent first; the oracle walks every window of the adopted segment"}));
 }
